@@ -12,6 +12,7 @@ import Cnl2aspModel.Compiler.Naming
 import Cnl2aspModel.Compiler.Temporal
 import Cnl2aspModel.Compiler.Surface
 import Cnl2aspModel.Compiler.Scope
+import Cnl2aspModel.Compiler.Explain
 
 open Lean Cnl2aspModel
 
@@ -274,6 +275,17 @@ def run (j : Json) : Json :=
   | some (k, f) => Json.mkObj [("index", Json.num k), ("fault", faultJson f)]
 end C17
 
+open Explain in
+def c15printer (j : Json) : Json :=
+  let attrs : List (List Char × List Char) := match j.getObjVal? "attrs" with
+    | .ok (Json.arr a) => a.toList.filterMap fun x => match x with
+        | Json.arr #[Json.str l, Json.str v] => some (l.toList, v.toList)
+        | _ => none
+    | _ => []
+  Json.mkObj [("printed", Json.str (chars (entityPrinter (jstr j "symbol").toList attrs))),
+              ("cap", Json.str (chars (capFirst (jstr j "sentence").toList))),
+              ("verb", Json.str (convertVerb (jstr j "verb")))]
+
 open LineCol in
 def linecol (j : Json) : Json :=
   let s := (jstr j "s").toList
@@ -299,6 +311,7 @@ def dispatch (op : String) (j : Json) : Json :=
   | "c05.run" => Ops.C05.run j
   | "c09.keys" => Ops.c09keys j
   | "c17.check" => Ops.C17.run j
+  | "c15.printer" => Ops.c15printer j
   | _ => Json.mkObj [("err", "bad-op")]
 
 partial def loop (h : IO.FS.Stream) (out : IO.FS.Stream) : IO Unit := do
